@@ -37,6 +37,9 @@ func runC02(e *core.Env) {
 		r := core.NewRand(e.Seed, 2, uint64(i))
 		today := ref.Date{Y: r.PickInt(2024, 2024, 1999, 2100, 4, 9998), M: r.Range(1, 12), D: 1}
 		today.D = r.Range(1, ref.DaysInMonth(today.Y, today.M))
+		if r.Chance(1, 10) {
+			today = obs.DSTDates[r.Intn(len(obs.DSTDates))]
+		}
 		nowCase := i%4 == 0
 		o := gen.Opts{MaxRecs: 6, MinRecs: 1, MaxEntries: 6, Hostile: r.Chance(1, 3), OpenRanges: 1, Tags: r.Intn(2), MaxHours: r.PickInt(30, 30, 1000000), Unicode: r.Chance(1, 4)}
 		if nowCase {
